@@ -554,9 +554,10 @@ def rule_closed_sets(ctx):
     ):
         fn = A.get_fn(ctx.files, rel, qual)
         t = A.fn_text(fn)
+        tab = A.string_table(fn)
         for tr in need:
             ctx.instance(f"{qual}:{tr}")
-            if f'"{tr}"' not in t:
+            if (tr not in tab) if tab is not None else (f'"{tr}"' not in t):
                 ctx.report(f"closed-set:{qual}:{tr}", ctx.where(fn.file, fn.node), f"`{qual}` has no arm for the registered derive `{tr}`: deriving it reaches `unimplemented!()`", {})
     for rel, ty in (("impl/src/into.rs", "FieldAttribute"), ("impl/src/utils.rs", "ReprInt")):
         fns = [fn for fn in A.functions(ctx.files[rel]) if fn.self_ty == ty and fn.name == "parse_attr_with"]
@@ -567,6 +568,17 @@ def rule_closed_sets(ctx):
     vt = A.get_fn(ctx.files, "impl/src/utils.rs", "fields_ext::FieldsExt::validate_type")
     t = A.fn_text(vt)
     ctx.instance("validate_type:one-type-per-field")
+    # the arity check and the result are decided on the same value: every `match` with a `Type::Tuple` arm scrutinises
+    # the same expression (aliases inlined)
+    al = {n: A.render(e) for n, (e, st, interp) in A.aliases(vt).items()}
+    scr = set()
+    for mt, _ in A.find(vt.block, "Expr::Match"):
+        if any("Type::Tuple" in A.render_pat(a["pat"]) for a in mt["arms"]):
+            r = A.render(A.peel(mt["expr"]))
+            scr.add(al.get(r, r))
+    ctx.instance("validate_type:same-scrutinee", sample={"scrutinees": sorted(scr)})
+    if len(scr) != 1:
+        ctx.report("closed-set:validate_type:scrutinee", ctx.where(vt.file, vt.node), f"`validate_type` checks the tuple arity on one value and builds its result from another ({sorted(scr)}): a type the first accepts as an N-tuple (through parentheses / an invisible group) is returned as ONE type, and `from.rs` reaches `unreachable!()` when it asks for the type of the second field", {})
     if "syn::Type::Tuple(syn::TypeTuple{elems:elems,..}) if self.len()>1||elems.len()==1=>Either::Left(elems.iter())" not in t.replace("{elems,..}", "{elems:elems,..}").replace("=>{Either::Left(elems.iter())}", "=>Either::Left(elems.iter())") or "other=>Either::Right(iter::once(other))" not in t:
         ctx.report("closed-set:validate_type", ctx.where(vt.file, vt.node), "`validate_type` no longer yields exactly one type per field (tuples are unpacked only when their arity was validated / is 1): `from.rs` reaches `unreachable!()` for `#[from(())]`", {"text": t[-400:]})
 
